@@ -1085,6 +1085,57 @@ func firstSpecFun(e SExpr, cs *ContractSet) string {
 	return res
 }
 
+// specMentions: does the expression mention one of the names (as an identifier or as the function of a call)?
+func specMentions(e SExpr, names map[string]bool) bool {
+	found := false
+	var walk func(e SExpr)
+	walk = func(e SExpr) {
+		if found || e == nil {
+			return
+		}
+		switch x := e.(type) {
+		case SIdent:
+			if names[x.Name] {
+				found = true
+			}
+		case SBin:
+			walk(x.L)
+			walk(x.R)
+		case SUn:
+			walk(x.X)
+		case SCall:
+			if names[x.Fn] {
+				found = true
+			}
+			for _, a := range x.Args {
+				walk(a)
+			}
+		case SIndex:
+			walk(x.X)
+			walk(x.I)
+		case SSliceE:
+			walk(x.X)
+			if x.Lo != nil {
+				walk(x.Lo)
+			}
+			if x.Hi != nil {
+				walk(x.Hi)
+			}
+		case SField:
+			walk(x.X)
+		case SQuant:
+			walk(x.Body)
+			for _, tr := range x.Triggers {
+				for _, t := range tr {
+					walk(t)
+				}
+			}
+		}
+	}
+	walk(e)
+	return found
+}
+
 func specFunsIn(e SExpr, cs *ContractSet) []string {
 	set := map[string]bool{}
 	var walk func(e SExpr)
